@@ -204,6 +204,11 @@ func planC10(prop string, seed uint64, tier string, idx int) *Plan {
 	if g.r.chance(30) {
 		k.UploadMax = g.r.pick(1, 2, 3)
 	}
+	if idx%4 == 0 {
+		g.fewTags = true
+		g.tagPool = []string{"t", "t0", "tx"}
+		g.p.Profile += ", three tags"
+	}
 	images, indexes, arts := g.gcGraph()
 	// unlike the collection profiles, other digest algorithms are welcome here
 	for _, o := range g.p.Objs {
